@@ -1,6 +1,7 @@
 import SV.Model.C01
 import SV.Model.C02
 import SV.Model.C11
+import SV.Model.C10
 import SV.Model.C07
 import SV.Model.C06
 import SV.Model.C05
@@ -29,6 +30,7 @@ def dispatch (prop : String) : Option (String → String) :=
   | "C01" => some C01.Driver.handle
   | "C02" => some C02.Driver.handle
   | "C11" => some C11.Driver.handle
+  | "C10" => some C10.Driver.handle
   | "C07" => some C07.Driver.handle
   | "C06" => some C06.Driver.handle
   | "C05" => some C05.Driver.handle
